@@ -83,7 +83,7 @@ func part8(c *Ctx, im *Impl, cf *CaseFile, tmp string) {
 			}
 		}()
 	}
-	bursts, per, nd := 2, 8, 5
+	bursts, per, nd := 2, 8, 9 // 9 delayed units: under heavy load some of them do not reach the interleaving
 	if c.Thorough() {
 		bursts, per, nd = 15, 10, 14
 	}
